@@ -83,6 +83,17 @@ pub fn same_qname(a: &QualName, b: &QualName) -> bool {
     a.ns == b.ns && a.local == b.local && a.prefix == b.prefix
 }
 
+/// "Attach a shadow root" (DOM standard): the HTML elements that may host one (custom element
+/// names are those with a hyphen).  Shared by ModelDom and the reference tree builder, which
+/// must predict the sink's answer.
+pub fn valid_shadow_host(ns: &str, local: &str) -> bool {
+    ns == "http://www.w3.org/1999/xhtml"
+        && (matches!(
+            local,
+            "article" | "aside" | "blockquote" | "body" | "div" | "footer" | "h1" | "h2" | "h3" | "h4" | "h5" | "h6" | "header" | "main" | "nav" | "p" | "section" | "span"
+        ) || (local.contains('-') && local.starts_with(|c: char| c.is_ascii_lowercase())))
+}
+
 pub struct ModelDom {
     /// (host, template) pairs for which attach_declarative_shadow answered true
     pub shadow_hosts: RefCell<Vec<(Id, Id)>>,
@@ -793,8 +804,15 @@ impl TreeSink for ModelDom {
             self.violate("attach_declarative_shadow", format!("{} is not an HTML template element", self.describe(*template)));
         }
         if self.dsd == Dsd::AllowSucceed {
-            self.shadow_hosts.borrow_mut().push((*location, *template));
-            return true;
+            // like a DOM: only the elements the DOM standard lists can host a shadow root, and only one
+            let ok = match self.elem_qname(*location) {
+                Some(q) => valid_shadow_host(&q.ns, &q.local),
+                None => false,
+            } && !self.shadow_hosts.borrow().iter().any(|(h, _)| h == location);
+            if ok {
+                self.shadow_hosts.borrow_mut().push((*location, *template));
+                return true;
+            }
         }
         false
     }
